@@ -1,5 +1,109 @@
-"""derive a concrete native scenario from a CBMC trace (filled in per operation family)"""
+"""Derive a concrete native scenario from a CBMC counterexample trace and run it against the real headers.
+
+The verifier's counterexample fixes the harness inputs and logical variables (g_N, pre_self.*, g_pos, count, g_alias, g_src ...);
+they are read back BY NAME from the trace and turned into a recipe for replay/native_replay.cpp, which builds the pre-state
+through the public API only, performs the operation on the real amc container with instrumented element / allocator types and
+compares with std::vector.  Operations for which no recipe exists return None (the violation is then reported with
+'no-failing-input-found' and the verifier trace attached)."""
+import os, re, json, subprocess, hashlib
+
+VERIF = os.path.dirname(os.path.dirname(os.path.abspath(__file__)))
+REPO = os.environ.get('AMC_REPO', '/repo')
+FL = {'small': 1, 'std': 2, 'static': 3}
+SZ = {'u8': 'uint8_t', 'u16': 'uint16_t', 'u32': 'uint32_t', 'u64': 'uint64_t'}
+OPMAP = {
+    'push_back_rE': 'push_back_rE', 'push_back_rrE': 'push_back_rrE', 'pop_back_v': 'pop_back_v', 'clear_v': 'clear_v',
+    'insert_pE_rE': 'insert_pE_rE', 'insert_pE_rrE': 'insert_pE_rrE', 'erase_pE': 'erase_pE', 'erase_pE_pE': 'erase_pE_pE',
+    'emplace_back_rE': 'emplace_back_rE', 'emplace_pE_rE': 'emplace_pE_rE',
+}
+
+def last_values(trace):
+    v = {}
+    for fn, lhs, val in trace:
+        v[lhs] = val
+    return v
+
+def num(v, key, default=0):
+    x = v.get(key)
+    if x is None:
+        return default
+    x = str(x)
+    if x in ('TRUE', 'true'):
+        return 1
+    if x in ('FALSE', 'false'):
+        return 0
+    m = re.match(r'^-?\d+', x)
+    return int(m.group(0)) if m else default
+
 def derive(unit, obl):
-    return None
-def run_native(recipe, log):
-    return False, 'no native runner for this recipe'
+    uid = unit['id']
+    v = last_values(obl.get('trace', []))
+    if not v:
+        return None
+    parts = uid.split('.')
+    rec = None
+    if parts[0] in ('op', 'cfg') :
+        if parts[0] == 'cfg':
+            parts = ['op'] + parts[2:]
+        name, fl, cat, sz = parts[1], parts[2], parts[3], parts[4]
+        op = OPMAP.get(name)
+        if op is None:
+            if re.fullmatch(r'insert_pE_u\d+_rE', name): op = 'insert_count'
+            elif re.fullmatch(r'resize_u\d+', name): op = 'resize'
+            elif re.fullmatch(r'resize_u\d+_rE', name): op = 'resize_v'
+            elif re.fullmatch(r'assign_u\d+_rE', name): op = 'assign_count'
+            elif re.fullmatch(r'append_u\d+', name): op = 'append_count'
+            elif re.fullmatch(r'append_u\d+_rE', name): op = 'append_count_v'
+            elif re.fullmatch(r'reserve_u\d+', name): op = 'reserve'
+        if op is None:
+            return None
+        rec = {'flavour': fl, 'cat': cat, 'sz': sz, 'op': op}
+        rec['count'] = num(v, 'count', num(v, 'capacity', 0))
+    elif parts[0] in ('svb', 'vec4', 'dvb', 'fvb') and parts[1].startswith(('move_assign', 'op_assign', 'swap_impl', 'swap', 'shrink')):
+        fl = {'svb': 'small', 'vec4': 'small', 'dvb': 'std', 'fvb': 'static'}[parts[0]]
+        op = 'op_assign_move' if parts[1].startswith(('move_assign', 'op_assign')) else ('shrink_to_fit' if parts[1].startswith('shrink') else 'swap')
+        rec = {'flavour': fl, 'cat': parts[2], 'sz': parts[3], 'op': op, 'flavour2': fl, 'sz2': parts[3]}
+    elif parts[0] == 'swap2':
+        f1, f2 = parts[1].split('_')
+        s1, s2 = parts[3].split('_')
+        rec = {'flavour': f1, 'cat': parts[2], 'sz': s1, 'op': 'swap2', 'flavour2': f2, 'sz2': s2}
+    if rec is None:
+        return None
+    rec['N'] = num(v, 'g_N', 4) if rec['flavour'] != 'std' else 0
+    rec['size'] = num(v, 'pre_self.size'); rec['capa'] = num(v, 'pre_self.capa'); rec['heap'] = num(v, 'pre_self.heap')
+    if rec['flavour'] == 'std':
+        rec['heap'] = 1 if rec['capa'] > 0 else 0
+    if 'flavour2' in rec:
+        rec['N2'] = (num(v, 'g_N2', rec['N']) if rec['op'] == 'swap2' else rec['N']) if rec['flavour2'] != 'std' else 0
+        rec['o_size'] = num(v, 'pre_o.size'); rec['o_capa'] = num(v, 'pre_o.capa'); rec['o_heap'] = num(v, 'pre_o.heap')
+        if rec['flavour2'] == 'std':
+            rec['o_heap'] = 1 if rec['o_capa'] > 0 else 0
+    rec['pos'] = num(v, 'g_pos'); rec['pos2'] = num(v, 'g_pos2'); rec['alias'] = num(v, 'g_alias'); rec['src'] = num(v, 'g_src')
+    rec['throws'] = 1 if (num(v, 'g_allow_elem_throw') or num(v, 'g_allow_alloc_fail')) else 0
+    if rec['N'] > 4000 or rec['size'] > 70000 or (rec['flavour'] == 'small' and rec['N'] < 1):
+        return None
+    return rec
+
+def run_native(recipe, log=print):
+    tr = 1 if recipe['cat'] == 'TR' else 0
+    defs = ['-DR_FLAVOUR=%d' % FL[recipe['flavour']], '-DR_N=%d' % max(recipe['N'], 1 if recipe['flavour'] != 'std' else 0), '-DR_SIZE_T=' + SZ[recipe['sz']], '-DR_TR=%d' % tr]
+    if 'flavour2' in recipe:
+        defs += ['-DR_FLAVOUR2=%d' % FL[recipe['flavour2']], '-DR_N2=%d' % max(recipe['N2'], 1 if recipe['flavour2'] != 'std' else 0), '-DR_SIZE2_T=' + SZ[recipe['sz2']]]
+    key = hashlib.sha1((' '.join(defs) + open(os.path.join(VERIF, 'replay', 'native_replay.cpp')).read()).encode()).hexdigest()[:16]
+    bdir = os.path.join(VERIF, 'build', 'replay'); os.makedirs(bdir, exist_ok=True)
+    exe = os.path.join(bdir, 'nr_' + key)
+    if not os.path.exists(exe):
+        r = subprocess.run(['g++', '-std=c++17', '-DAMC_NONSTD_FEATURES', '-fsanitize=address,undefined', '-fno-sanitize-recover=undefined', '-g'] + defs +
+                           ['-I' + os.path.join(REPO, 'include'), os.path.join(VERIF, 'replay', 'native_replay.cpp'), '-o', exe], capture_output=True, text=True)
+        if r.returncode != 0:
+            return False, 'native replayer does not build for this recipe:\n' + r.stderr[-1500:]
+    args = ['op=' + recipe['op']] + ['%s=%s' % (k, recipe[k]) for k in ('size', 'capa', 'heap', 'o_size', 'o_capa', 'o_heap', 'pos', 'pos2', 'count', 'alias', 'src', 'throws') if k in recipe]
+    try:
+        r = subprocess.run([exe] + args, capture_output=True, text=True, timeout=120, env=dict(os.environ, ASAN_OPTIONS='detect_leaks=1:abort_on_error=0'))
+    except subprocess.TimeoutExpired:
+        return True, 'native replay did not terminate within 120 s (' + ' '.join(args) + ')'
+    out = '$ ' + os.path.basename(exe) + ' ' + ' '.join(args) + '\n' + r.stdout[-3000:] + r.stderr[-2500:]
+    if r.returncode == 3:
+        return False, out
+    # exit 1 = misbehaviour found by the replayer's own oracle; other non-zero = sanitizer abort / crash on the real code
+    return r.returncode != 0, out
